@@ -31,6 +31,7 @@ type Relay struct {
 	consumers []subscription
 
 	cache             Cache
+	cachePutMutex     stdsync.Mutex   // Serialises cache insertions of concurrent Put calls.
 	defaultMsgHandler func(*Envelope) // Handles messages with no subscriber.
 }
 
@@ -144,7 +145,12 @@ func (p *Relay) Put(e *Envelope) {
 	}
 
 	if !found {
-		if !p.cache.Put(e) {
+		// Put only holds the read lock, so concurrent calls must not append to
+		// the cache at the same time.
+		p.cachePutMutex.Lock()
+		cached := p.cache.Put(e)
+		p.cachePutMutex.Unlock()
+		if !cached {
 			p.defaultMsgHandler(e)
 		}
 	}
